@@ -116,6 +116,8 @@ class Body:
             for si, st in enumerate(blk["stmts"]):
                 if st["k"] == "assign":
                     pl = st["pl"]
+                    if any(el[0] == "d" for el in pl["p"]):
+                        continue  # a write through a pointer held in the local, not a definition of it
                     self.defs[pl["l"]].append((bi, si, not pl["p"]))
             t = blk["term"]
             if t is None:
@@ -200,7 +202,7 @@ class Body:
     # ("cast", a) | ("discr", a) | ("clone", a) | ("try", a) | ("upvar", name) | ("ref", a) is
     # not produced: refs and derefs are transparent | ("unknown", why)
     def origin_local(self, l, depth=0):
-        if depth > 60:
+        if depth > 400:
             return ("unknown", "depth")
         if self.owner is None:
             if 1 <= l <= self.arg_count:
@@ -318,6 +320,112 @@ class Body:
             else:
                 continue
         return base
+
+    # -------------------------------------------------------------------------------------
+    # Definitely-moved analysis. mir_promoted is before drop elaboration: every scope exit has a
+    # Drop terminator even for values that were moved out on every path. Such a drop is a no-op
+    # (it can neither run a destructor nor unwind); rules must not count it.
+    def _moves_in_operand(self, op, acc):
+        if op and op.get("k") == "move" and not op["pl"]["p"]:
+            acc.add(op["pl"]["l"])
+
+    def _rv_operands(self, rv):
+        k = rv["k"]
+        if k in ("use", "cast", "repeat"):
+            return [rv["op"]]
+        if k == "bin":
+            return [rv["a"], rv["b"]]
+        if k == "un":
+            return [rv["a"]]
+        if k == "agg":
+            return rv["ops"]
+        return []
+
+    def _moved_dataflow(self):
+        n = len(self.blocks)
+        ALL = None  # top
+        inn = [ALL] * n
+        inn[0] = frozenset()
+        work = deque([0])
+        out_cache = {}
+
+        def transfer(bi, state):
+            st = set(state)
+            blk = self.blocks[bi]
+            for s in blk["stmts"]:
+                if s["k"] == "assign":
+                    for op in self._rv_operands(s["rv"]):
+                        self._moves_in_operand(op, st)
+                    if not s["pl"]["p"]:
+                        st.discard(s["pl"]["l"])
+                elif s["k"] == "live":
+                    st.discard(s["l"])
+            at_term = frozenset(st)
+            t = blk["term"]
+            outs = {}
+            if t is None:
+                return at_term, outs
+            k = t["k"]
+            if k == "call":
+                for a in t["args"]:
+                    self._moves_in_operand(a, st)
+                if t.get("fnop"):
+                    self._moves_in_operand(t["fnop"], st)
+                base = frozenset(st)
+                for e in self.succ[bi]:
+                    if e.kind == "ret" and not t["dest"]["p"]:
+                        outs[e.dst] = base - {t["dest"]["l"]}
+                    else:
+                        outs[e.dst] = base
+            elif k == "drop":
+                if not t["pl"]["p"]:
+                    st.add(t["pl"]["l"])
+                base = frozenset(st)
+                for e in self.succ[bi]:
+                    outs[e.dst] = base
+            elif k == "yield":
+                self._moves_in_operand(t["val"], st)
+                base = frozenset(st)
+                for e in self.succ[bi]:
+                    outs[e.dst] = base
+            else:
+                if k == "switch":
+                    self._moves_in_operand(t["op"], st)
+                base = frozenset(st)
+                for e in self.succ[bi]:
+                    outs[e.dst] = base
+            return at_term, outs
+
+        at_term = [None] * n
+        while work:
+            bi = work.popleft()
+            state = inn[bi]
+            if state is None:
+                continue
+            at, outs = transfer(bi, state)
+            at_term[bi] = at
+            for dst, o in outs.items():
+                cur = inn[dst]
+                new = o if cur is None else (cur & o)
+                if cur is None or new != cur:
+                    inn[dst] = new
+                    work.append(dst)
+        self._moved_at_term = at_term
+
+    def moved_at_term(self, bb):
+        if not hasattr(self, "_moved_at_term"):
+            self._moved_dataflow()
+        return self._moved_at_term[bb] or frozenset()
+
+    def drop_is_noop(self, bb):
+        """the Drop terminator of bb drops a whole local that was moved out on every path here, or a
+        type without any destructor in its drop glue"""
+        t = self.blocks[bb]["term"]
+        if not t or t["k"] != "drop":
+            return False
+        if not t["pl"]["p"] and t["pl"]["l"] in self.moved_at_term(bb):
+            return True
+        return False
 
     # -------------------------------------------------------------------------------------
     def switch_info(self, bb):
